@@ -64,6 +64,7 @@ if __name__ == "__main__":
     E["fixed-C04-add_file-suffix-not-xml-text"] = ("C04", [{"op": "init", "source": "sample:base_shapes.odg", "salt": 4}, {"op": "add_file", "via": "path_odd", "content": 3}, SAVE()], "pass")
     E["C09-strip-squeezes-raw-blank-runs"] = ("C09", [{"op": "init", "kind": "Paragraph", "text": " delta Ab \n alpha\nchat"}, {"op": "markup", "what": "set_link", "n": 0, "regex": "\\w+"}, {"op": "markup", "what": "set_link", "n": 0, "offset": 0, "length": 0}, {"op": "markup", "what": "delete_inline", "n": 0, "idx": 2}, {"op": "markup", "what": "remove_links", "n": 0}], "violation")
     E["fixed-C11-mimetype-setter-folder-source"] = ("C11", [{"op": "init", "source": "sample:toc_done.odt", "how": "folder", "salt": 2}, {"op": "set_mimetype", "dt": 0.6}, {"op": "save_set", "variants": [{"packaging": "xml", "pretty": False, "target": "bytesio"}]}], "pass")
+    E["C04-failed-inplace-folder-save-loses-document"] = ("C04", [{"op": "init", "source": "sample:md_fixed.odt", "how": "folder", "salt": 8}, SAVE(packaging="folder", target="inplace", backup=True, fault={"site": "mkdir", "k": 1, "errno": "ENOSPC", "partial": True}), SAVE(target="path")], "violation")
     DCFG = {"max_steps": 40, "leg": "D"}
     E["fixed-C10-xmlpart-clone-stale"] = ("C10", [{"op": "init", "source": "template:spreadsheet"}, {"op": "add_file", "via": "bytesio", "content": 1}, {"op": "clone_part", "part": "manifest", "n": 1}], "pass", DCFG)
     E["fixed-C10-document-clone-drops-unsaved"] = ("C10", [{"op": "init", "source": "sample:example.odt", "how": "path", "salt": 0}, {"op": "edit", "kind": "para", "n": 1}, {"op": "set_part", "kind": "new", "n": 2, "name": "Extra/blob2.bin"}, {"op": "clone_doc"}], "pass", DCFG)
